@@ -130,6 +130,8 @@ def gen_transfer(rng, cfg, types, nsubs=1, reenter=False, maxsize=40,
             spec['offset'] = wchoice(rng, [(0, 2), (rng.randint(1, 9), 2)])
             if rng.random() < 0.3:
                 spec['duck'] = True     # no seekable()/readable(): probed by seek/tell
+            if rng.random() < 0.25:
+                spec['short_seekable'] = True
         if spec['src'] == 'nonseekable':
             spec['short_src'] = rng.random() < 0.25
         if rng.random() < provide_prob:
@@ -460,6 +462,20 @@ def gen_C01(rng):
     for i, t in enumerate(sc['transfers']):
         if rng.random() < 0.6:
             sc['faults'] += gen_rewinds(rng, i, t, sc['config'])
+    paths = [i for i, t in enumerate(sc['transfers'])
+             if t['type'] == 'upload' and t.get('src') == 'path']
+    if paths and rng.random() < 0.12:
+        # the application rewrites a file it has uploaded and uploads it again
+        # through the same manager: the object is what the file holds NOW
+        i = rng.choice(paths)
+        old = sc['transfers'][i]['size']
+        cfg = sc['config']
+        new = rng.choice([old + 1, old + rng.randint(1, 2 * cfg['multipart_chunksize'] + 2),
+                          max(0, old - rng.randint(1, max(1, old)))])
+        n = len(sc['transfers'])
+        sc['driver'] = [['submit', k] for k in range(n)] + [['result', k] for k in range(n)] + \
+            [['fresh', {'type': 'upload', 'src': 'path', 'size': new, 'subs': [{}],
+                        'path_override': '/d/up%d' % i}], ['shutdown']]
     return sc
 
 
@@ -480,8 +496,20 @@ def gen_C02(rng):
     if rng.random() < 0.6:
         for i, t in enumerate(sc['transfers']):
             sc['faults'] += gen_stream_retries(rng, i, t, sc['config'])
+    dls = [i for i, t in enumerate(sc['transfers']) if t['type'] == 'download']
+    if dls and not sc.get('driver') and rng.random() < 0.08:
+        # the object is replaced (other size) and downloaded again through the
+        # same manager: the destination holds what the object is NOW
+        i = rng.choice(dls)
+        old = sc['transfers'][i]['size']
+        cfg = sc['config']
+        new = rng.choice([old + 1, old + rng.randint(1, 2 * cfg['multipart_chunksize'] + 2),
+                          max(0, old - rng.randint(1, max(1, old)))])
+        n = len(sc['transfers'])
+        sc['driver'] = [['submit', k] for k in range(n)] + [['result', k] for k in range(n)] + \
+            [['fresh', {'type': 'download', 'dst': rng.choice(['seekable', 'nonseekable']),
+                        'size': new, 'subs': [{}], 'key_override': 'o%d' % i}], ['shutdown']]
     return sc
-
 
 def gen_C03(rng):
     sc = base(rng, ALL_TYPES, nmax=2, short_reads=True, maxsize=24)
@@ -621,6 +649,18 @@ def gen_C05(rng):
     sc['strategy'] = gen_strategy(rng, est_steps(sc['transfers'], cfg))
     n = len(sc['transfers'])
     r = rng.random()
+    if r < 0.08:
+        # use_threads=False (NonThreadedExecutor): every request runs on the
+        # caller's thread, where a Ctrl-C can arrive in the middle of it
+        sc['knobs']['serial'] = True
+        sc['knobs']['line_preempt'] = False
+        i = rng.randrange(n)
+        site = rng.choice(s3_sites(i, sc['transfers'][i], cfg))
+        f = {'site': 's3', 'when': rng.choice(['before', 'after']),
+             'exc': rng.choice(['kbi', 'kbi', 'client'])}
+        f.update(site)
+        sc['faults'].append(f)
+        return sc
     if r < 0.5:
         i = rng.randrange(n)
         sc['faults'] += gen_fatal_fault(rng, i, sc['transfers'][i], cfg)
@@ -824,12 +864,16 @@ def gen_C16(rng):
     if rng.random() < 0.35:
         i = rng.randrange(len(sc['transfers']))
         t = sc['transfers'][i]
-        exc = rng.choice(['brokenpipe', 'brokenpipe', 'timeout', 'oserror'])
+        exc = rng.choice(['brokenpipe', 'brokenpipe', 'timeout', 'oserror', 'blockingio',
+                          'blockingio'])
+        if t['dst'] == 'fifo' and exc == 'blockingio':
+            t['dst'] = 'nonseekable'
         if t['dst'] == 'fifo':
             sc['faults'].append({'site': 'fs', 'op': 'write', 'path': '/d/fifo%d' % i,
                                  'nth': rng.randint(0, 3), 'exc': exc})
         else:
-            sc['faults'].append({'site': 'dst', 't': i, 'nth': rng.randint(0, 3), 'exc': exc})
+            sc['faults'].append({'site': 'dst', 't': i, 'nth': rng.randint(0, 3), 'exc': exc,
+                                 'partial': rng.randint(0, 7)})
     return sc
 
 
